@@ -85,6 +85,14 @@ def main():
             extra[hook] = run_extra(hook)
     inconclusive = []
     failures = []
+    for hook, res in extra.items():
+        if res.get('status') == 'FAILED':
+            failures.append({'obligation': 'KANI::%s::assertion-failed[%s]' % (hook, res.get('harness')), 'unit': 'KANI', 'item': hook,
+                             'tag': res.get('harness'), 'props': [prop], 'kind': 'Kani harness on the real crate failed', 'clause': res.get('harness'),
+                             'site': hook, 'verifier_output': res.get('tail', '')})
+        elif res.get('status') in ('timeout', 'tool-error', 'missing', 'error'):
+            # the facts stay listed as assumptions; never a violation
+            pass
     for r in results:
         inconclusive += ['%s: %s' % (r.unit, i) for i in r.inconclusive]
         failures += [f for f in r.failures if prop in f['props']]
